@@ -32,6 +32,7 @@ import (
 
 func TestCheck(t *testing.T) {
 	c := vk.New("C18")
+	c.StartWatchdog("C18", 45)
 	run(c)
 	c.Finish()
 	vk.Exit(0)
@@ -661,7 +662,10 @@ func arenaPart(c *vk.Ctx) {
 					if n%997 == 1 {
 						c.Sample(fmt.Sprint(seq))
 					}
-					if p := runArena(seq); p != "" {
+					c.Guard(fmt.Sprint("arena seq=", seq))
+					p := runArena(seq)
+					c.Guard("")
+					if p != "" {
 						c.Outcome("violation")
 						// shrink
 						min := append([]aop(nil), seq...)
